@@ -30,7 +30,8 @@ SPEC = {
 }
 
 OPS = ["subset", "subset", "subsub", "subsub", "subsub", "combine", "combine", "concat", "concat", "invert",
-       "observed", "unobserved", "get_plate", "plates", "to_screen", "unique", "cross", "subset_extreme"]
+       "observed", "observed", "unobserved", "get_plate", "plates", "to_screen", "unique", "cross", "subset_extreme",
+       "set_observed", "set_observed", "read"]
 
 
 def preload(prop):
@@ -48,10 +49,12 @@ def gen_plan(prop, run_seed, tier):
 
 
 class V:
-    __slots__ = ("view", "base", "idx")
+    __slots__ = ("view", "base", "idx", "live_observed")
 
-    def __init__(self, view, base, idx):
+    def __init__(self, view, base, idx, live_observed=False):
         self.view, self.base, self.idx = view, base, frozenset(idx)
+        # the observed view is handed the screen's own mask array: it may (or may not) follow later reveals
+        self.live_observed = live_observed
 
 
 def execute(prop, plan):
@@ -89,8 +92,12 @@ def execute(prop, plan):
         p = rnd.choice([0.2, 0.5, 0.8])
         return np.array([rnd.random() < p for _ in range(n)], dtype=bool)
 
-    def add(view, base, idx):
-        pool.append(V(view, base, idx))
+    def add(view, base, idx, live_observed=False):
+        # an operation may hand back an existing object (concat of one element): it keeps that object's nature
+        for other in pool:
+            if other.view is view or getattr(other.view, "selection_vector", None) is getattr(view, "selection_vector", 0):
+                live_observed = live_observed or other.live_observed
+        pool.append(V(view, base, idx, live_observed))
         if len(pool) > 12:
             del pool[0]
 
@@ -208,7 +215,7 @@ def execute(prop, plan):
                 else:
                     if not want:
                         violation("C14.observed-split", op, f"{op} view returned although no row qualifies")
-                    add(view, b, want)
+                    add(view, b, want, live_observed=(op == "observed"))
                 opsdone.append(op)
             elif op == "get_plate":
                 b = rnd.randrange(2)
@@ -287,6 +294,32 @@ def execute(prop, plan):
                         stats.probe("unique_filter_dropped_duplicates")
                     add(view, b, got)
                 opsdone.append("unique")
+            elif op == "read":
+                # a consumer reads attributes of some live views (this is when lazily cached state would be filled)
+                for v in pool[: 4]:
+                    _ = v.view.size, v.view.sample_ids, v.view.observations
+                opsdone.append("read")
+            elif op == "set_observed":
+                b = rnd.randrange(2)
+                rows, ids = tables[b]
+                plates = sorted({r[3] for r in rows if not r[4]})
+                if plates:
+                    chosen = set(rnd.sample(plates, rnd.randint(1, len(plates))))
+                    selv = np.array([r[3] in chosen for r in rows], dtype=bool)
+                    vals = np.array([rnd.random() for _ in range(int(selv.sum()))], dtype=float)
+                    bases[b].set_observed(selv, vals)
+                    bits = iter(f64_bits(vals).tolist())
+                    new_rows = [(r[0], r[1], int(next(bits)) if sv else r[2], r[3], True if sv else r[4]) for r, sv in zip(rows, selv)]
+                    tables[b] = (new_rows, ids)
+                    observed_now = frozenset(i for i, r in enumerate(new_rows) if r[4])
+                    for v in pool:
+                        if v.base == b and v.live_observed:
+                            actual = frozenset(np.where(np.asarray(v.view.selection_vector))[0].tolist())
+                            if actual == observed_now:
+                                v.idx = observed_now  # the view follows the mask it was handed (live view)
+                    stats.probe("set_observed_on_base_with_live_views")
+                    stats.nontrivial = stats.nontrivial or len(pool) >= 2
+                opsdone.append("set_observed")
             elif op == "cross":
                 a = [x for x in pool if x.base == 0]
                 c = [x for x in pool if x.base == 1]
